@@ -20,16 +20,24 @@ type zz14T struct {
 	N int8            `json:"n"`
 }
 
-// zzDigit returns a symbolic decimal digit byte and its numeric value.
-func zzDigit(name string) (byte, int8) {
+// zzDigit returns a decimal digit byte and its numeric value: symbolic when sym, else def.
+func zzDigit(sym bool, name string, def byte) (byte, int8) {
+	if !sym {
+		return def, int8(def - '0')
+	}
 	c := vrt.Byte(name)
 	vrt.Assume(c >= '0' && c <= '9')
 	return c, int8(c - '0')
 }
 
-func zzKeyByte(name string) byte {
+// zzKeyByte returns a map key byte: symbolic in {a,b,c} when sym (equal and unequal keys both
+// occur), else def.
+func zzKeyByte(sym bool, name string, def byte) byte {
+	if !sym {
+		return def
+	}
 	c := vrt.Byte(name)
-	vrt.Assume(c >= 'a' && c <= 'c') // three possible keys: equal and unequal keys both occur
+	vrt.Assume(c >= 'a' && c <= 'c')
 	return c
 }
 
@@ -44,17 +52,22 @@ func zzKeyByte(name string) byte {
 // replaced, scalars are replaced, null zeroes its destination; every field j2 does not mention
 // is kept.
 func VerifC14Merge(field, mode int) {
-	x1c, x1 := zzDigit("x1")
-	y1 := vrt.Byte("y1")
-	vrt.Assume(y1 >= 'a' && y1 <= 'z')
-	px1c, px1 := zzDigit("px1")
-	k1 := zzKeyByte("k1")
-	mv1c, mv1 := zzDigit("mv1")
-	l1c, l1 := zzDigit("l1")
-	a1c, a1 := zzDigit("a1")
-	a2c, a2 := zzDigit("a2")
-	n1c, n1 := zzDigit("n1")
-	ik1 := zzKeyByte("ik1")
+	// only the values of the field under test are symbolic (every further symbolic byte
+	// multiplies the path count); the other fields carry distinct concrete values
+	x1c, x1 := zzDigit(field == 0, "x1", '3')
+	y1 := byte('q')
+	if field == 0 {
+		y1 = vrt.Byte("y1")
+		vrt.Assume(y1 >= 'a' && y1 <= 'z')
+	}
+	px1c, px1 := zzDigit(field == 1, "px1", '4')
+	k1 := zzKeyByte(field == 2, "k1", 'a')
+	mv1c, mv1 := zzDigit(field == 2, "mv1", '5')
+	l1c, l1 := zzDigit(field == 3, "l1", '6')
+	a1c, a1 := zzDigit(field == 4, "a1", '8')
+	a2c, a2 := zzDigit(field == 4, "a2", '9')
+	n1c, n1 := zzDigit(field == 6, "n1", '2')
+	ik1 := zzKeyByte(field == 5, "ik1", 'b')
 	j1 := []byte(`{"s":{"x":` + string(x1c) + `,"y":"` + string(y1) + `"},"p":{"x":` + string(px1c) + `},"m":{"` + string(k1) + `":` + string(mv1c) +
 		`},"l":[` + string(l1c) + `,7],"a":[` + string(a1c) + `,` + string(a2c) + `],"i":{"` + string(ik1) + `":true},"n":` + string(n1c) + `}`)
 	var v zz14T
@@ -70,8 +83,8 @@ func VerifC14Merge(field, mode int) {
 	vrt.Assert("C14/after-j1", zz14Equal(&v, &want, wantI, false, false))
 
 	// second text
-	dc, d := zzDigit("d")
-	k2 := zzKeyByte("k2")
+	dc, d := zzDigit(true, "d", '0')
+	k2 := zzKeyByte(field == 2 || field == 5, "k2", 'c')
 	var j2 []byte
 	iNil, iReplaced := false, false
 	var wantIRepl any
